@@ -202,6 +202,7 @@ def must_keys(ctx, func, var, sink_call, initial_unknown=True, at_node=None, dep
     """State of dict variable `var` immediately before `sink_call` is invoked (or on
     entry to `at_node`)."""
     cfg = ctx.cfg(func)
+    cur = [None]
 
     def keyfold(e):
         ok, v = ctx.try_fold(func, e)
@@ -229,6 +230,14 @@ def must_keys(ctx, func, var, sink_call, initial_unknown=True, at_node=None, dep
                         lit = (func, a)
                     elif isinstance(a, ast.Attribute) and isinstance(a.value, ast.Name) and a.value.id == "self" and func.cls:
                         lit = dict_attr_literal(ctx, func.cls, a.attr)
+                    if lit is None and isinstance(a, ast.Name) and a.id != var and depth < 2 and cur[0] is not None:
+                        # update from another local dictionary: whatever that one certainly holds at this point
+                        sub = must_keys(ctx, func, a.id, None, at_node=cur[0], depth=depth + 1)
+                        if sub is not None and sub.present:
+                            for kv, vv in sub.present.items():
+                                st.present[kv] = vv
+                                st.absent = st.absent - {kv}
+                            return st
                     if lit is not None:
                         for k, v in zip(lit[1].keys, lit[1].values):
                             ok, kv = ctx.try_fold(lit[0], k)
@@ -254,6 +263,7 @@ def must_keys(ctx, func, var, sink_call, initial_unknown=True, at_node=None, dep
         if lab == "exc":
             return st  # conservative: state before the node's effects is a subset anyway
         st2 = st
+        cur[0] = n
         for c, _m in calls_in_node(n):
             st2 = apply_call(st2, c)
         s = n.ast
@@ -285,6 +295,9 @@ def must_keys(ctx, func, var, sink_call, initial_unknown=True, at_node=None, dep
                             if kw.arg:
                                 pres[kw.arg] = (ast.dump(kw.value), kw.value)
                         st2 = KeyState(pres, frozenset())
+                    elif isinstance(s.value, ast.Name) and s.value.id != var and depth < 2:
+                        sub = must_keys(ctx, func, s.value.id, None, at_node=n, depth=depth + 1)
+                        st2 = KeyState(dict(sub.present), frozenset()) if sub is not None else KeyState({}, frozenset())
                     else:
                         st2 = KeyState({}, frozenset())
                         if isinstance(s.value, ast.Call):
@@ -553,6 +566,9 @@ def _fresh_container(e):
         if isinstance(e.func, ast.Name) and e.func.id in ("dict", "list", "set", "deque", "OrderedDict", "defaultdict", "SimpleQueue", "Queue", "Lock", "RLock",
                                                            "WeakKeyDictionary", "BufferingDestination", "Destinations"):
             return True
+    if isinstance(e, ast.Call) and unparse(e.func).split(".")[-1] == "ChainMap" and not e.keywords:
+        # stores into a ChainMap go to its FIRST mapping only: it is a private scratch layer exactly when that mapping is fresh
+        return not e.args or _fresh_container(e.args[0])
     if isinstance(e, ast.BinOp) and isinstance(e.op, ast.Add):
         return True
     return False
